@@ -2140,8 +2140,10 @@ fn rewrite_static(
     };
 
     if let Some(expr) = static_parts.expr_opt {
-        let comments_lo = context.snippet_provider.span_after(static_parts.span, "=");
         let expr_lo = expr.span.lo();
+        let comments_lo = context
+            .snippet_provider
+            .span_after(mk_sp(static_parts.ty.span.hi(), expr_lo), "=");
         let comments_span = mk_sp(comments_lo, expr_lo);
 
         let lhs = format!("{prefix}{ty_str} =");
